@@ -1,6 +1,6 @@
 //! C07 — bounded indicators stay inside their documented range.
 //!
-//! Range automaton on every Some output in f64 (f32 as well in thorough): violation iff the value
+//! Range automaton on every Some output in f64 and f32: violation iff the value
 //! is NaN or lies outside the documented interval by more than 16 ulps of the bound.  Workload: the
 //! adversarial histories the property names (flat after volatile, blocks, jumps on the oldest
 //! segment, exact lines at an offset, tiny variation on a large level, dynamic range up to 2^60).
@@ -170,8 +170,18 @@ fn classify(c: &Case, xs: &[f64], t: usize, got: f64, eps: f64) -> &'static str 
             let n = if let Spec::Ma(_, pn, ..) = &c.spec { *pn } else { n };
             let r = oe::pfe(xs[..=t].to_vec().as_slice(), n, c.ma);
             match r[t] {
-                Some(e) if e.abs() > 1.0 + 16.0 * eps && (e - got).abs() <= 1e-9 * e.abs().max(1.0) => "defining_formula_of_C11_itself_exceeds_range",
+                Some(e) if e.abs() > 1.0 + 16.0 * eps && (e - got).abs() <= (1e-9f64).max(4096.0 * eps) * e.abs().max(1.0) => "defining_formula_of_C11_itself_exceeds_range",
                 _ => "any",
+            }
+        }
+        "CenterOfGravity" => {
+            // the bound (N-1)/2 is attained when all the weight sits on one end of the window; the
+            // quotient of two N-term sums is then off by up to about N ulps
+            let b = (n as f64 - 1.0) / 2.0;
+            if got.abs() - b <= 4.0 * n as f64 * eps * b.max(1.0) {
+                "excess_within_4N_ulps_of_the_bound"
+            } else {
+                "any"
             }
         }
         _ => "any",
@@ -281,12 +291,12 @@ fn drawdown<T: Scalar>(xs: &[f64], out: &mut TrialOut) {
         let Some(g) = v.last() else { continue };
         let g = g.f();
         out.cell(&format!("Drawdown/{}", T::NAME), 1);
-        if !(g >= 0.0 && g < 1.0 && g >= prev) {
+        if !(g >= 0.0 && g <= 1.0 + 16.0 * T::EPS && g >= prev) {
             out.violation(
                 "Drawdown",
                 "range",
                 "any",
-                format!("Drawdown at {}: step {}: output {:e} (previous {:e}) not in [0,1) or decreasing\n{}", T::NAME, t, g, prev, show_inputs(xs, t, 12)),
+                format!("Drawdown at {}: step {}: output {:e} (previous {:e}) not in [0,1) (up to 16 ulps of 1) or decreasing\n{}", T::NAME, t, g, prev, show_inputs(xs, t, 12)),
             );
             return;
         }
@@ -296,7 +306,7 @@ fn drawdown<T: Scalar>(xs: &[f64], out: &mut TrialOut) {
 
 fn ns(cfg: &Cfg) -> Vec<usize> {
     match cfg.tier {
-        Tier::Quick => vec![2, 3, 4, 5, 8, 14, 30, 64],
+        Tier::Quick => vec![2, 3, 4, 5, 8, 14, 30, 64, 257],
         Tier::Thorough => (2..=64).chain([257]).collect(),
     }
 }
@@ -306,11 +316,43 @@ impl Monitor for C07 {
         "C07"
     }
     fn plan(&self, cfg: &Cfg) -> u64 {
-        (18 * ns(cfg).len() * CLASSES.len()) as u64 * cfg.tier.pick(2, 4)
+        (18 * ns(cfg).len() * CLASSES.len()) as u64 * cfg.tier.pick(3, 4) + cfg.tier.pick(240, 2400)
     }
     fn trial(&self, cfg: &Cfg, idx: u64, out: &mut TrialOut) {
         let nl = ns(cfg);
         let mut rng = Rng::for_trial(cfg.seed, "C07", idx);
+        let main = (18 * nl.len() * CLASSES.len()) as u64 * cfg.tier.pick(3, 4);
+        if idx >= main {
+            // exactly linear off-grid windows at large N: a quotient of N-term sums that is +-1
+            // (or sits on its bound) in exact arithmetic collects about N ulps of rounding there
+            let j = idx - main;
+            let n = *rng.pick(&[64usize, 130, 257, 400]);
+            let (name, spec, lo, hi, positive) = if j % 2 == 0 {
+                ("CorrelationTrendIndicator", Spec::leaf(Kind::Cti(n)), -1.0, 1.0, false)
+            } else {
+                let b = (n as f64 - 1.0) / 2.0;
+                ("CenterOfGravity", Spec::leaf(Kind::Cog(n)), -b, b, true)
+            };
+            let start = *rng.pick(&[100.0, 1000.0, 0.7, 12345.6, 1.0e5]);
+            let step = *rng.pick(&[1.0 / 3.0, -1.0 / 3.0, 0.1, -0.7, 1e-3, 2.3]) * (1.0 + rng.unit53());
+            let len = 2 * n + 50;
+            let mut xs: Vec<f64> = (0..len).map(|i| start + step * i as f64).collect();
+            if positive {
+                // CoG sits on its bound when all the weight is on one end of the window
+                let big = *rng.pick(&[1.0e12, 3.3e9]);
+                xs = (0..len).map(|i| if i % (n + 1) == 0 { big * (1.0 + rng.unit53()) } else { 1.0 + rng.unit53() }).collect();
+            }
+            let c = Case { name, n, spec, lo, hi, positive, kind: None, ma: oe::RefMa::Echo };
+            out.key(mix(hash_str(&format!("ramps{}{}", name, n)), gen::hash_f64s(&xs)));
+            out.count("large_window_line_trials", 1);
+            if (j / 2) % 2 == 0 {
+                run::<f64>(&c, &xs, out)
+            } else {
+                let xs32: Vec<f64> = xs.iter().map(|x| (*x as f32) as f64).collect();
+                run::<f32>(&c, &xs32, out)
+            }
+            return;
+        }
         let vi = (idx % 18) as usize;
         let n = nl[((idx / 18) % nl.len() as u64) as usize];
         let n = super::jitter_n(cfg, n, 2, 64, &mut rng);
@@ -341,7 +383,7 @@ impl Monitor for C07 {
             }
             out.count("trials_with_non_dyadic_values", 1);
         }
-        let f32_too = cfg.tier == Tier::Thorough && rep % 4 >= 2;
+        let f32_too = rep % 4 >= 2;
         out.key(mix(hash_str(&format!("{}{}{}", vi, n, f32_too)), gen::hash_f64s(&xs)));
         if vi == 16 {
             if f32_too {
@@ -384,7 +426,7 @@ impl Monitor for C07 {
         v
     }
     fn rule(&self) -> String {
-        "trial = (one of 16 range-documented views with its parameter grid, the Min <= Sma/Alma/newest <= Max sandwich, or Drawdown; N in 2..64 (+257); one of 14 input classes dominated by the adversarial histories the property names, a quarter of them rescaled block-wise over a dynamic range of up to 2^60; short and long (3e3 quick / 1e5 thorough) streams; f64, and f32 in thorough); every Some output must be a number inside the documented interval up to 16 ulps of the bound. A violation is classified by the exact oracle on the failing window (predicate). distinct = distinct (view, N, scalar, input hash)".into()
+        "trial = (one of 16 range-documented views with its parameter grid, the Min <= Sma/Alma/newest <= Max sandwich, or Drawdown; N in 2..64 (+257); one of 14 input classes dominated by the adversarial histories the property names, a quarter of them rescaled block-wise over a dynamic range of up to 2^60; short and long (3e3 quick / 1e5 thorough) streams; f64 and f32); every Some output must be a number inside the documented interval up to 16 ulps of the bound. A violation is classified by the exact oracle on the failing window (predicate). distinct = distinct (view, N, scalar, input hash)".into()
     }
     fn assumptions(&self) -> Vec<String> {
         vec!["'a few ulps of the bound itself' = 16 ulps of max(|lo|, |hi|) of the scalar under test".into(), "CenterOfGravity and Drawdown: positive inputs".into()]
